@@ -40,6 +40,10 @@ CLAIMED["C20"] = ("model_checking", "5 C20",
     "Scrollable.render/_adjust_trim_top run on unbounded symbolic content height, view size and stored position for each pending action; slice start, range and position "
     "arithmetic decided by the solver; ScrollBar parts read from the materialised bar for a symbolic, unbounded position (monotonicity over two copies).",
     "z3 trusted; abstract child; scrollbar views up to 6 rows / 16 content rows.")
+CLAIMED["C13"] = ("model_checking", "5 C13",
+    "The real SelectEventLoop.run() executes scripted sessions in which alarm delays, the clock and per-iteration descriptor readiness are solver variables "
+    "(heapq compares symbolic due times, so every relative order of expiry is a path); ordering, not-before-due, removal, watch, idle and exception obligations are discharged per path.",
+    "z3 trusted; select loop only (asyncio/tornado/twisted/trio/glib/zmq adapters are not covered: stated in DESIGN and in the evidence); <= 3 alarms, 2 descriptors, 8 iterations.")
 NOT_YET = {}
 TECH = "bounded symbolic execution of the real urwid code (AST-lifted import of /repo) with z3 deciding every path obligation; counterexamples replayed on the un-lifted code"
 def main():
